@@ -111,7 +111,8 @@ int main(int argc, char** argv)
         p.endpoints = 4;
         p.allowGarbage = true;
         p.bigSegmentHistories = 16;
-        return genFrameHistory(p);
+        // one history in eight: long gaps full of other endpoints' first segments between the segments of one message
+        return rc::gen::exec([p]() { return *range<int>(0, 7) == 0 ? *genLongGapHistory() : *genFrameHistory(p); });
     };
     prop.run = runCase;
     return pbtMain(argc, argv, prop);
